@@ -11,6 +11,7 @@
 //!    synthesizer gives such reads blocking semantics);
 //!  * function arguments are plain signals/selects and unary `-`/`~` never applies to a bare
 //!    literal (the *RTL simulator* evaluates those self-determined — see notes/C19.md);
+//!  * comb arrays are read at constant indices only (simulator defect, see notes);
 //!  * no `as <width>` casts (the synthesizer does not truncate to the cast width);
 //!  * if_reset only holds `var = <literal of at most 64 bits>`; register arrays
 //!    reset to zero.
@@ -461,14 +462,11 @@ pub fn generate(rng: &mut Rng, o: CleanOpts, kind: &str) -> Case {
                     let e = g.expr(&env, w, ed.min(2));
                     b.b(&format!("    assign {an}[{j}] = {e};"));
                 }
-                let ix = env.iter().find(|x| x.width == clog2(n)).map(|x| x.name.clone());
-                match ix {
-                    Some(ix) => {
-                        b.b(&format!("    assign {name} = {an}[{ix}];"));
-                        g.feat("array_dynamic_read");
-                    }
-                    None => b.b(&format!("    assign {name} = {an}[{}];", g.rng.usize(n))),
-                }
+                // constant index only: the RTL simulator mis-orders a dynamically indexed read of a
+                // comb array whose elements depend on other comb signals (probe simdefect_comb_array_order)
+                let j = g.rng.usize(n);
+                let j2 = g.rng.usize(n);
+                b.b(&format!("    assign {name} = {an}[{j}] ^ {an}[{j2}];"));
                 g.feat("comb_array");
             }
             _ => {
